@@ -754,6 +754,16 @@ def run(tier):
             disagreements += seg_dis
             evaluations += seg_stats['reads'] + seg_stats['full_reads']
             chk.coverage['segment_model'] = seg_stats
+            # search: the numpy oracle on the trees where model and implementation part ways (the subscript that disagreed
+            # and a fresh family of subscripts)
+            for dsg in seg_dis[:10]:
+                try:
+                    shape = segtree.full_shape_of(dsg['tree'])
+                except Exception:
+                    continue
+                subs = ([['tuple'] + [list(x) for x in dsg['sub']]] if dsg.get('sub') else [None]) + \
+                    [rand_subscript(rng, shape) for _ in range(20)]
+                check_tree(dsg['tree'], subs, tmpdir, fails, stats)
         if tier == 'thorough':
             exhaustive_small(fails, stats, tmpdir)
     finally:
